@@ -9,6 +9,17 @@ Definition CInv (c : comp) (L : ledger) : Prop :=
   L = [(c_blk c, mkblk true (c_cap c) (c_begin c) (c_begin c + c_num c))] /\ c_num c <= c_cap c /\ c_blk c < c_nxt c /\
   1 <= c_sec c /\ 1 <= c_nsec c.
 
+Opaque init_cap trailing_ones.
+Ltac rsplit := repeat match goal with |- _ /\ _ => split end.
+Ltac csimpl := cbn [c_hra c_sec c_j c_nsec c_state c_num c_cap c_blk c_nxt mkc fst snd q_k q_hra q_tab q_n q_retained q_maxnom q_comps with_comps].
+Tactic Notation "csimpl" "in" hyp(H) := cbn [c_hra c_sec c_j c_nsec c_state c_num c_cap c_blk c_nxt mkc fst snd q_k q_hra q_tab q_n q_retained q_maxnom q_comps with_comps] in H.
+
+Lemma mkblk_eq ty sz lo hi lo' hi' : lo = lo' -> hi = hi' -> mkblk ty sz lo hi = mkblk ty sz lo' hi'.
+Proof. now intros -> ->. Qed.
+
+Lemma one_blk_eq (b : N) ty sz lo hi lo' hi' : lo = lo' -> hi = hi' -> [(b, mkblk ty sz lo hi)] = [(b, mkblk ty sz lo' hi')].
+Proof. now intros -> ->. Qed.
+
 Lemma judgeq_ok X L es L' : apply_all X L es = Some L' -> judgeq X L es = (L', false).
 Proof. intros H. unfold judgeq. now rewrite H. Qed.
 
@@ -18,9 +29,9 @@ Proof. unfold c_begin. destruct (c_hra c); cbn; lia. Qed.
 Lemma new_comp_ok X hra k c e : 1 <= k -> new_comp hra k = (c, e) -> exists L, apply_all X [] e = Some L /\ CInv c L.
 Proof.
   intros Hk. unfold new_comp. cbv zeta. intros E; injection E as <- <-. cbn [apply_all]. rewrite alloc0.
-  eexists. split; [reflexivity|]. unfold CInv, c_begin. simpl. destruct hra; simpl.
-  - rewrite (mkblk_empty_eq true _ 0 (2 * (2 * 3 * k) - 0)) by lia. rewrite N.add_0_r. repeat split; lia.
-  - repeat split; lia.
+  eexists. split; [reflexivity|]. unfold CInv, c_begin. csimpl. destruct hra.
+  - rewrite (mkblk_empty_eq true _ 0 (init_cap k - 0)) by lia. rewrite N.add_0_r. rsplit; try reflexivity; try lia.
+  - rsplit; try reflexivity; try lia.
 Qed.
 
 Lemma comp_grow_ok X c L new_cap c' e : CInv c L -> c_num c <= new_cap -> comp_grow c new_cap = (c', e) ->
@@ -30,12 +41,12 @@ Proof.
   intros (-> & Hn & Hb & Hs & Hns) Hnew. unfold comp_grow. cbv zeta. intros E; injection E as <- <-.
   pose proof (begin_end c Hn) as Hbe.
   set (c' := mkc c (c_sec c) (c_j c) (c_nsec c) (c_state c) (c_num c) new_cap (c_nxt c) (c_nxt c + 1)).
-  assert (Hbe' : c_begin c' + c_num c <= new_cap) by (unfold c_begin, c'; simpl; destruct (c_hra c); lia).
+  assert (Hbe' : c_begin c' + c_num c <= new_cap) by (unfold c_begin, c'; csimpl; destruct (c_hra c); lia).
   cbn [apply_all]. rewrite alloc1 by lia.
   rewrite (mkblk_empty_eq true new_cap 0 (c_begin c')) by lia.
   rewrite (movd_dst_fst X (c_nxt c) true new_cap (c_begin c') (c_begin c') (c_blk c) true (c_cap c) (c_begin c) (c_begin c + c_num c) (c_num c)) by lia.
   rewrite dealloc2_snd by lia.
-  eexists. split; [reflexivity|]. unfold CInv, c'. simpl. repeat split; auto; lia.
+  eexists. split; [reflexivity|]. unfold CInv, c'. csimpl. rsplit; auto; try reflexivity; try lia.
 Qed.
 
 Lemma nom_pos c : 1 <= c_sec c -> 1 <= c_nsec c -> 1 <= nom_capacity c.
@@ -49,19 +60,19 @@ Proof.
                exists L1, apply_all X L e1 = Some L1 /\ CInv c1 L1 /\ c_num c1 < c_cap c1 /\ c_num c1 = c_num c).
   { intros c1 e1. pose proof HI as (_ & Hn & _ & Hs & Hns). pose proof (nom_pos c Hs Hns).
     destruct (N.eqb_spec (c_num c) (c_cap c)).
-    - intros E. destruct (comp_grow_ok X c L _ c1 e1 HI ltac:(lia) E) as (L1 & H1 & H2 & H3 & H4 & _).
-      exists L1. repeat split; auto. lia.
-    - intros E; injection E as <- <-. exists L. repeat split; auto. lia. }
+    - intros E. destruct (comp_grow_ok X c L (c_cap c + nom_capacity c) c1 e1 HI ltac:(lia) E) as (L1 & H1 & H2 & H3 & H4 & _).
+      exists L1. rsplit; auto. lia.
+    - intros E; injection E as <- <-. exists L. rsplit; auto. lia. }
   destruct (if c_num c =? c_cap c then _ else _) as [c1 e1]. destruct (Hg c1 e1 eq_refl) as (L1 & HL1 & HI1 & Hlt & Hnum).
   intros E; injection E as <- <-. destruct HI1 as (-> & Hn & Hb & Hs & Hns).
   rewrite (apply_all_app X L e1 _ _ HL1). cbn [apply_all]. unfold c_begin in *. destruct (c_hra c1) eqn:Hh.
   - pose proof (cons1_below X (c_blk c1) true (c_cap c1) (c_cap c1 - c_num c1) (c_cap c1 - c_num c1 + c_num c1) 1) as H.
     replace (c_cap c1 - c_num c1 - 1) with (c_cap c1 - c_num c1 - 1) by lia. rewrite H by lia.
-    eexists. split; [reflexivity|]. unfold CInv, c_begin. simpl. rewrite Hh. split; [|repeat split; auto; lia].
-    f_equal. f_equal. apply mkblk_eq; lia.
-  - pose proof (cons1_above X (c_blk c1) true (c_cap c1) 0 (0 + c_num c1) 1) as H. rewrite N.add_0_l in H. rewrite H by lia.
-    eexists. split; [reflexivity|]. unfold CInv, c_begin. simpl. rewrite Hh. split; [|repeat split; auto; lia].
-    f_equal. f_equal. apply mkblk_eq; lia.
+    eexists. split; [reflexivity|]. unfold CInv, c_begin. csimpl. rewrite Hh.
+    split; [split; [apply one_blk_eq; lia|rsplit; auto; lia]|lia].
+  - rewrite !N.add_0_l. rewrite (cons1_above X (c_blk c1) true (c_cap c1) 0 (c_num c1) 1) by lia.
+    eexists. split; [reflexivity|]. unfold CInv, c_begin. csimpl. rewrite Hh.
+    split; [split; [apply one_blk_eq; lia|rsplit; auto; lia]|lia].
 Qed.
 
 (* what grow-like steps preserve *)
@@ -72,9 +83,9 @@ Lemma comp_ensure_space_ok X c L n c' e : CInv c L -> comp_ensure_space c n = (c
   exists L', apply_all X L e = Some L' /\ CInv c' L' /\ same_shape c c' /\ c_num c' + n <= c_cap c'.
 Proof.
   intros HI. unfold comp_ensure_space. destruct (N.ltb_spec (c_cap c) (c_num c + n)).
-  - intros E. destruct (comp_grow_ok X c L _ c' e HI ltac:(lia) E) as (L1 & H1 & H2 & H3 & H4 & H5 & _ & _ & H8 & _).
-    exists L1. unfold same_shape. repeat split; auto. lia.
-  - intros E; injection E as <- <-. exists L. unfold same_shape. repeat split; auto.
+  - intros E. destruct (comp_grow_ok X c L (c_num c + n + nom_capacity c) c' e HI ltac:(lia) E) as (L1 & H1 & H2 & H3 & H4 & H5 & _ & _ & H8 & _).
+    exists L1. unfold same_shape. rsplit; auto. lia.
+  - intros E; injection E as <- <-. exists L. unfold same_shape. rsplit; auto.
 Qed.
 
 Lemma comp_ensure_sections_ok X tab c L c' e again : CInv c L -> comp_ensure_sections tab c = (c', e, again) ->
@@ -85,26 +96,26 @@ Proof.
   - apply andb_prop in Hc. destruct Hc as [_ Hne]. apply N.leb_le in Hne. unfold MIN_K in Hne.
     set (c1 := mkc c (nth (N.to_nat (c_j c)) tab 0) (c_j c + 1) (2 * c_nsec c) (c_state c) (c_num c) (c_cap c) (c_blk c) (c_nxt c)).
     assert (HI1 : CInv c1 L).
-    { destruct HI as (-> & Hn & Hb & Hs & Hns). unfold CInv, c1, c_begin. simpl. repeat split; auto; lia. }
+    { destruct HI as (-> & Hn & Hb & Hs & Hns). unfold CInv, c1, c_begin. csimpl. rsplit; auto; try reflexivity; try lia. }
     destruct (N.ltb_spec (c_cap c1) (2 * nom_capacity c1)).
     + destruct (comp_grow c1 (2 * nom_capacity c1)) as [c2 e2] eqn:Eg. intros E; injection E as <- <- <-.
       assert (Hle : c_num c1 <= 2 * nom_capacity c1) by (destruct HI1 as (_ & Hn & _); lia).
       destruct (comp_grow_ok X c1 L _ c2 e2 HI1 Hle Eg) as (L1 & H1 & H2 & H3 & H4 & H5 & _ & _ & H8 & _).
-      exists L1. unfold same_shape. repeat split; auto.
-    + intros E; injection E as <- <- <-. exists L. unfold same_shape. repeat split; auto.
-  - intros E; injection E as <- <- <-. exists L. unfold same_shape. repeat split; auto.
+      exists L1. unfold same_shape. rsplit; auto.
+    + intros E; injection E as <- <- <-. exists L. unfold same_shape. rsplit; auto.
+  - intros E; injection E as <- <- <-. exists L. unfold same_shape. rsplit; auto.
 Qed.
 
 Lemma ensure_sections_loop_ok X tab : forall fuel c L acc L0 c' e, apply_all X L0 acc = Some L -> CInv c L ->
   ensure_sections_loop fuel tab c acc = (c', e) -> exists L', apply_all X L0 e = Some L' /\ CInv c' L' /\ same_shape c c'.
 Proof.
-  induction fuel as [|f IH]; intros c L acc L0 c' e Hacc HI; simpl.
+  induction fuel as [|f IH]; intros c L acc L0 c' e Hacc HI; cbn [ensure_sections_loop].
   - intros E; injection E as <- <-. exists L. unfold same_shape. auto.
   - destruct (comp_ensure_sections tab c) as [[c1 e1] again] eqn:E1.
     destruct (comp_ensure_sections_ok X tab c L c1 e1 again HI E1) as (L1 & H1 & H2 & H3).
     assert (Hacc1 : apply_all X L0 (acc ++ e1) = Some L1) by (rewrite (apply_all_app X L0 acc _ _ Hacc); exact H1).
     destruct again.
-    + intros E. destruct (IH c1 L1 _ L0 c' e Hacc1 H2 E) as (L' & A & B & C). exists L'. repeat split; auto.
+    + intros E. destruct (IH c1 L1 _ L0 c' e Hacc1 H2 E) as (L' & A & B & C). exists L'. rsplit; auto.
       unfold same_shape in *. intuition congruence.
     + intros E; injection E as <- <-. exists L1. auto.
 Qed.
@@ -145,32 +156,32 @@ Proof.
                     (c_blk c) true (c_cap c) (c_cap c - c_num c) (c_cap c - c_num c + c_num c) (c_cap c - c_num c + low)
                     (c_blk n1) true (c_cap n1) (c_cap n1 - c_num n1) (c_cap n1 - c_num n1 + c_num n1) half) as H.
       rewrite H; try lia; [|apply lookup_hd].
-      eexists. split; [reflexivity|]. unfold CInv, c_begin. simpl. rewrite Hh1. split; [|repeat split; auto; lia].
-      f_equal. f_equal. apply mkblk_eq; lia.
+      eexists. split; [reflexivity|]. unfold CInv, c_begin. csimpl. rewrite Hh1. split; [|rsplit; auto; lia].
+      apply one_blk_eq; lia.
     + pose proof (fromx1_above [(c_blk c, mkblk true (c_cap c) 0 (0 + c_num c))]
                     (c_blk c) true (c_cap c) 0 (0 + c_num c) (0 + low)
                     (c_blk n1) true (c_cap n1) 0 (0 + c_num n1) half) as H.
       rewrite H; try lia; [|apply lookup_hd].
-      eexists. split; [reflexivity|]. unfold CInv, c_begin. simpl. rewrite Hh1. split; [|repeat split; auto; lia].
-      f_equal. f_equal. apply mkblk_eq; lia.
+      eexists. split; [reflexivity|]. unfold CInv, c_begin. csimpl. rewrite Hh1. split; [|rsplit; auto; lia].
+      apply one_blk_eq; lia.
   - (* this compactor *)
     assert (Hd : exists L1, apply [] [(c_blk c, mkblk true (c_cap c) (c_begin c) (c_begin c + c_num c))]
                               (Dest (c_blk c) (c_begin c + low) (high - low)) = Some L1 /\ CInv c1 L1).
     { unfold c_begin in *. destruct (c_hra c) eqn:Hhc.
       - rewrite (Rh eq_refl) in *. rewrite N.add_0_r. rewrite dest1_prefix by lia.
-        eexists. split; [reflexivity|]. unfold CInv, c1, c_begin. simpl. rewrite Hhc. split; [|repeat split; auto; lia].
-        f_equal. f_equal. apply mkblk_eq; lia.
+        eexists. split; [reflexivity|]. unfold CInv, c1, c_begin. csimpl. rewrite Hhc. split; [|rsplit; auto; lia].
+        apply one_blk_eq; lia.
       - rewrite (Rl eq_refl) in *.
         pose proof (dest1_suffix [] (c_blk c) true (c_cap c) 0 (0 + c_num c) (c_num c - low)) as H.
         replace (0 + c_num c - (c_num c - low)) with (0 + low) in H by lia. rewrite H by lia.
-        eexists. split; [reflexivity|]. unfold CInv, c1, c_begin. simpl. rewrite Hhc. split; [|repeat split; auto; lia].
-        f_equal. f_equal. apply mkblk_eq; lia. }
+        eexists. split; [reflexivity|]. unfold CInv, c1, c_begin. csimpl. rewrite Hhc. split; [|rsplit; auto; lia].
+        apply one_blk_eq; lia. }
     destruct Hd as (L1 & Hd1 & HIc1).
     destruct (comp_ensure_sections_ok [] tab c1 L1 c2 ec2 ag HIc1 ESec) as (L2 & A & B & C).
     exists L2. split; auto. cbn [apply_all]. rewrite Hd1. exact A.
   - destruct (comp_ensure_sections_ok [] tab c1 [(c_blk c1, mkblk true (c_cap c1) (c_begin c1) (c_begin c1 + c_num c1))] c2 ec2 ag) as (L2 & A & B & (C1 & C2 & C3)); auto.
-    + unfold CInv, c1. simpl. repeat split; auto; lia.
-    + split; [rewrite C2; reflexivity|]. simpl. congruence.
+    + unfold CInv, c1. csimpl. rsplit; auto; try reflexivity; try lia.
+    + split; [rewrite C2; reflexivity|]. csimpl. congruence.
 Qed.
 
 Lemma comp_merge_ok tab c L o LO c' e : CInv c L -> CInv o LO -> c_hra o = c_hra c -> comp_merge tab c o = (c', e) ->
@@ -178,7 +189,7 @@ Lemma comp_merge_ok tab c L o LO c' e : CInv c L -> CInv o LO -> c_hra o = c_hra
 Proof.
   intros HI HO Hh. unfold comp_merge. cbv zeta.
   set (c0 := mkc c (c_sec c) (c_j c) (c_nsec c) (N.lor (c_state c) (c_state o)) (c_num c) (c_cap c) (c_blk c) (c_nxt c)).
-  assert (HI0 : CInv c0 L) by (destruct HI as (-> & ? & ? & ? & ?); unfold CInv, c0, c_begin; simpl; repeat split; auto).
+  assert (HI0 : CInv c0 L) by (destruct HI as (-> & ? & ? & ? & ?); unfold CInv, c0, c_begin; csimpl; rsplit; auto).
   destruct (ensure_sections_loop 64 tab c0 []) as [c1 e1] eqn:E1.
   destruct (ensure_sections_loop_ok LO tab 64 c0 L [] L c1 e1 eq_refl HI0 E1) as (L1 & H1 & HI1 & (S1 & S2 & S3)).
   destruct (comp_ensure_space c1 (c_num o)) as [c2 e2] eqn:E2.
@@ -195,17 +206,17 @@ Proof.
                     (if c_hra o then c_cap o - c_num o else 0)
                     (c_blk c2) true (c_cap c2) (c_cap c2 - c_num c2) (c_cap c2 - c_num c2 + c_num c2) (c_num o)) as H.
       rewrite H; try lia; [|apply lookup_hd].
-      eexists. split; [reflexivity|]. unfold CInv, c_begin. simpl. rewrite Hh2. split; [|repeat split; auto; lia].
-      split; [|repeat split; auto; lia]. f_equal. f_equal. apply mkblk_eq; lia.
+      eexists. split; [reflexivity|]. unfold CInv, c_begin. csimpl. rewrite Hh2. split; [|rsplit; auto; lia].
+      split; [|rsplit; auto; lia]. apply one_blk_eq; lia.
     + pose proof (fromx1_above [(c_blk o, mkblk true (c_cap o) (if c_hra o then c_cap o - c_num o else 0) ((if c_hra o then c_cap o - c_num o else 0) + c_num o))]
                     (c_blk o) true (c_cap o) (if c_hra o then c_cap o - c_num o else 0) ((if c_hra o then c_cap o - c_num o else 0) + c_num o)
                     (if c_hra o then c_cap o - c_num o else 0)
                     (c_blk c2) true (c_cap c2) 0 (0 + c_num c2) (c_num o)) as H.
       rewrite N.add_0_l in H. rewrite H; try lia; [|apply lookup_hd].
-      eexists. split; [reflexivity|]. unfold CInv, c_begin. simpl. rewrite Hh2. split; [|repeat split; auto; lia].
-      split; [|repeat split; auto; lia]. f_equal. f_equal. apply mkblk_eq; lia.
-  - assert (c_num o = 0) by lia. eexists. split; [reflexivity|]. unfold CInv, c_begin. simpl. rewrite Hh2.
-    split; [|auto]. split; [|repeat split; auto; lia]. f_equal. f_equal. apply mkblk_eq; lia.
+      eexists. split; [reflexivity|]. unfold CInv, c_begin. csimpl. rewrite Hh2. split; [|rsplit; auto; lia].
+      split; [|rsplit; auto; lia]. apply one_blk_eq; lia.
+  - assert (c_num o = 0) by lia. eexists. split; [reflexivity|]. unfold CInv, c_begin. csimpl. rewrite Hh2.
+    split; [|auto]. split; [|rsplit; auto; lia]. apply one_blk_eq; lia.
 Qed.
 
 Lemma comp_copy_ok o LO c e : CInv o LO -> comp_copy o = (c, e) -> exists L, apply_all LO [] e = Some L /\ CInv c L /\ c_hra c = c_hra o.
@@ -216,9 +227,9 @@ Proof.
   - cbn [apply_all]. rewrite (mkblk_empty_eq true (c_cap o) 0 (c_begin o)) by lia.
     rewrite (fromx1_above _ (c_blk o) true (c_cap o) (c_begin o) (c_begin o + c_num o) (c_begin o) 0 true (c_cap o) (c_begin o) (c_begin o) (c_num o));
       try lia; [|apply lookup_hd].
-    eexists. split; [reflexivity|]. unfold CInv, c_begin. simpl. repeat split; auto; lia.
-  - assert (c_num o = 0) by lia. eexists. split; [reflexivity|]. unfold CInv, c_begin in *. simpl.
-    split; [|repeat split; auto; lia]. rewrite H0, N.add_0_r. f_equal. f_equal. apply mkblk_empty_eq; destruct (c_hra o); lia.
+    eexists. split; [reflexivity|]. unfold CInv, c_begin. csimpl. rsplit; auto; try reflexivity; try lia.
+  - assert (c_num o = 0) by lia. eexists. split; [reflexivity|]. unfold CInv, c_begin in *. csimpl.
+    split; [|rsplit; auto; lia]. rewrite H0, N.add_0_r. f_equal. f_equal. apply mkblk_empty_eq; destruct (c_hra o); lia.
 Qed.
 
 Lemma comp_destroy_ok X c L : CInv c L -> apply_all X L (comp_destroy c) = Some [].
@@ -231,7 +242,7 @@ Lemma comp_live c L : CInv c L -> live_slots L = c_num c /\ item_slots L = c_cap
 Proof.
   intros (-> & Hn & _). pose proof (begin_end c Hn). split.
   - rewrite live_slots_one by lia. lia.
-  - unfold item_slots. simpl. lia.
+  - unfold item_slots. csimpl. lia.
 Qed.
 
 (* ---- the sketch ---- *)
@@ -244,7 +255,7 @@ Proof.
   intros Hk HF. unfold push_comp. destruct (new_comp (q_hra s) (q_k s)) as [c e] eqn:E.
   destruct (new_comp_ok [] _ _ c e Hk E) as (L & HL & HI). rewrite (judgeq_ok _ _ _ _ HL).
   intros E2; injection E2 as <- <-. split; auto. apply Forall_app. split; auto. constructor; [|constructor].
-  simpl. split; auto. unfold new_comp in E. injection E as <- _. reflexivity.
+  csimpl. split; auto. unfold new_comp in E. injection E as <- _. reflexivity.
 Qed.
 
 Lemma compress_loop_ok s : 1 <= q_k s -> forall fuel done rest ret mx bad cs ret' mx' bad',
@@ -253,10 +264,10 @@ Lemma compress_loop_ok s : 1 <= q_k s -> forall fuel done rest ret mx bad cs ret
   compress_loop fuel s done rest ret mx bad = Some (cs, ret', mx', bad') ->
   Forall (fun p => CInv (fst p) (snd p) /\ c_hra (fst p) = q_hra s) cs /\ bad' = bad.
 Proof.
-  intros Hk. induction fuel as [|f IH]; intros done rest ret mx bad cs ret' mx' bad' HD HR; simpl.
+  intros Hk. induction fuel as [|f IH]; intros done rest ret mx bad cs ret' mx' bad' HD HR; cbn [compress_loop].
   - intros E; injection E as <- _ _ <-. split; auto. apply Forall_app. auto.
   - destruct rest as [|[c L] t]. { intros E; injection E as <- _ _ <-. auto. }
-    inversion HR as [|? ? [HIc Hhc] HRt]; subst. simpl in HIc, Hhc.
+    inversion HR as [|? ? [HIc Hhc] HRt]; subst. csimpl in HIc; csimpl in Hhc.
     destruct (nom_capacity c <=? c_num c).
     + assert (Htop : exists t1 mx1 bad1, (match t with
                   | [] => let '(t', b') := push_comp s [] in (t', sum_nom (done ++ (c, L) :: t'), bad || b')
@@ -268,27 +279,27 @@ Proof.
         - eexists _, _, _. split; [reflexivity|]. auto. }
       destruct Htop as (t1 & mx1 & bad1 & -> & HF1 & ->).
       destruct t1 as [|[nx LN] t2]; [discriminate|].
-      inversion HF1 as [|? ? [HIn Hhn] HF2]; subst. simpl in HIn, Hhn.
+      inversion HF1 as [|? ? [HIn Hhn] HF2]; subst. csimpl in HIn; csimpl in Hhn.
       destruct (comp_compact (q_tab s) c nx) as [[[[[[c' ec] nx'] en] num] dnom]|] eqn:EC; [|discriminate].
       destruct (comp_compact_ok _ c L nx LN c' ec nx' en num dnom HIc HIn ltac:(congruence) EC)
         as ((Ln' & A1 & A2) & (Lc' & B1 & B2) & C1 & C2).
       rewrite (judgeq_ok _ _ _ _ A1), (judgeq_ok _ _ _ _ B1).
       intros E. apply IH in E.
       * destruct E as [E1 ->]. split; auto. destruct bad; auto.
-      * apply Forall_app. split; auto. constructor; [|constructor]. simpl. split; auto. congruence.
-      * constructor; auto. simpl. split; auto. congruence.
+      * apply Forall_app. split; auto. constructor; [|constructor]. csimpl. split; auto. congruence.
+      * constructor; auto. csimpl. split; auto. congruence.
     + intros E. apply IH in E; auto. apply Forall_app. split; auto.
 Qed.
 
 Lemma req_update_ok s s' bad : QInv s -> req_update s = Some (s', bad) -> QInv s' /\ bad = false.
 Proof.
   intros [Hk HF]. unfold req_update. destruct (q_comps s) as [|[c0 L0] t] eqn:Hc; [discriminate|].
-  inversion HF as [|? ? [HI0 Hh0] HFt]; subst. simpl in HI0, Hh0.
+  inversion HF as [|? ? [HI0 Hh0] HFt]; subst. csimpl in HI0; csimpl in Hh0.
   destruct (comp_append c0) as [c1 e1] eqn:EA.
   destruct (comp_append_ok [] c0 L0 c1 e1 HI0 EA) as (L1 & H1 & HI1 & Hn).
   rewrite (judgeq_ok _ _ _ _ H1).
   assert (Hh1 : c_hra c1 = q_hra s).
-  { unfold comp_append in EA. destruct (c_num c0 =? c_cap c0); [unfold comp_grow in EA; cbv zeta in EA|]; injection EA as <- _; simpl; auto. }
+  { unfold comp_append in EA. destruct (c_num c0 =? c_cap c0); [unfold comp_grow in EA; cbv zeta in EA|]; injection EA as <- _; csimpl; auto. }
   assert (HF1 : Forall (fun p => CInv (fst p) (snd p) /\ c_hra (fst p) = q_hra s) ((c1, L1) :: t)) by (constructor; auto).
   destruct (q_retained s + 1 =? q_maxnom s).
   - unfold req_compress. destruct (compress_loop _ s [] _ _ _ false) as [[[[cs' r'] m'] b']|] eqn:EC; [|discriminate].
@@ -301,7 +312,7 @@ Lemma grow_to_ok s : 1 <= q_k s -> forall fuel cs n bad cs' bad',
   Forall (fun p => CInv (fst p) (snd p) /\ c_hra (fst p) = q_hra s) cs -> grow_to fuel s cs n bad = (cs', bad') ->
   Forall (fun p => CInv (fst p) (snd p) /\ c_hra (fst p) = q_hra s) cs' /\ bad' = bad.
 Proof.
-  intros Hk. induction fuel as [|f IH]; intros cs n bad cs' bad' HF; simpl.
+  intros Hk. induction fuel as [|f IH]; intros cs n bad cs' bad' HF; cbn [grow_to].
   - intros E; injection E as <- <-. auto.
   - destruct (length cs <? n)%nat.
     + destruct (push_comp s cs) as [cs1 b] eqn:EP. destruct (push_comp_ok s cs cs1 b Hk HF EP) as [F ->].
@@ -315,7 +326,7 @@ Lemma merge_comps_ok tab hra : forall cs os bad cs' bad',
   merge_comps tab cs os bad = (cs', bad') ->
   Forall (fun p => CInv (fst p) (snd p) /\ c_hra (fst p) = hra) cs' /\ bad' = bad.
 Proof.
-  induction cs as [|[c L] t IH]; intros os bad cs' bad' HC HO; simpl.
+  induction cs as [|[c L] t IH]; intros os bad cs' bad' HC HO; cbn [merge_comps].
   - intros E; injection E as <- <-. auto.
   - destruct os as [|[o LO] ot]. { intros E; injection E as <- <-. auto. }
     inversion HC as [|? ? [HIc Hhc] HCt]; subst. inversion HO as [|? ? [HIo Hho] HOt]; subst. simpl in *.
@@ -324,7 +335,7 @@ Proof.
     rewrite (judgeq_ok _ _ _ _ A).
     destruct (merge_comps tab t ot (bad || false)) as [t' b'] eqn:ER.
     destruct (IH ot _ t' b' HCt HOt ER) as [F ->].
-    intros E; injection E as <- <-. split; [constructor; auto; simpl; split; auto; congruence|destruct bad; auto].
+    intros E; injection E as <- <-. split; [constructor; auto; csimpl; split; auto; congruence|destruct bad; auto].
 Qed.
 
 Lemma req_merge_ok s o s' bad : QInv s -> QInv o -> req_merge s o = Some (s', bad) -> QInv s' /\ bad = false.
@@ -351,29 +362,41 @@ Proof.
   assert (H : Forall (fun p => CInv (fst p) (snd p) /\ c_hra (fst p) = q_hra o)
                 (map fst (map (fun p => let '(c, e) := comp_copy (fst p) in let '(L, b) := judgeq (snd p) [] e in ((c, L), b)) (q_comps o))) /\
               existsb snd (map (fun p => let '(c, e) := comp_copy (fst p) in let '(L, b) := judgeq (snd p) [] e in ((c, L), b)) (q_comps o)) = false).
-  { induction HF as [|[c L] t [HI Hh] Ht IH]; simpl; [auto|].
+  { induction HF as [|[c L] t [HI Hh] Ht IH]; cbn [map existsb fst snd]; [auto|].
     destruct (comp_copy c) as [c' e] eqn:EC. destruct (comp_copy_ok c L c' e HI EC) as (L' & A & B & C).
-    rewrite (judgeq_ok _ _ _ _ A). simpl. destruct IH as [I1 I2]. split; auto. constructor; auto. simpl. split; auto. congruence. }
+    rewrite (judgeq_ok _ _ _ _ A). cbn [map existsb fst snd orb]. destruct IH as [I1 I2]. split; auto. constructor; auto. csimpl. split; auto. congruence. }
   destruct H as [H1 H2]. split; auto. split; auto.
 Qed.
 
 Lemma req_destroy_ok s : QInv s -> req_destroy s = false.
 Proof.
-  intros [_ HF]. unfold req_destroy. induction HF as [|[c L] t [HI _] Ht IH]; simpl; auto.
-  rewrite (judgeq_ok _ _ _ _ (comp_destroy_ok [] c L HI)). simpl. exact IH.
+  intros [_ HF]. unfold req_destroy. induction HF as [|[c L] t [HI _] Ht IH]; cbn [existsb fst snd]; auto.
+  rewrite (judgeq_ok _ _ _ _ (comp_destroy_ok [] c L HI)). cbn [orb]. exact IH.
 Qed.
 
 Lemma new_req_ok k hra tab s bad : 1 <= k -> new_req k hra tab = (s, bad) -> QInv s /\ bad = false.
 Proof.
   intros Hk. unfold new_req. destruct (new_comp hra k) as [c e] eqn:E.
   destruct (new_comp_ok [] _ _ c e Hk E) as (L & HL & HI). rewrite (judgeq_ok _ _ _ _ HL).
-  intros E2; injection E2 as <- <-. split; auto. split; auto. simpl. constructor; [|constructor]. simpl. split; auto.
+  intros E2; injection E2 as <- <-. split; auto. split; auto. csimpl. constructor; [|constructor]. csimpl. split; auto.
   unfold new_comp in E. injection E as <- _. reflexivity.
 Qed.
 
 Lemma req_live s : QInv s -> live_slots (q_ledger s) = sum_num (q_comps s).
 Proof.
-  intros [_ HF]. unfold q_ledger. induction HF as [|[c L] t [HI _] Ht IH]; simpl; auto.
-  destruct HI as (-> & Hn & _). pose proof (begin_end c Hn). simpl.
-  unfold live_slots in *. simpl. rewrite count_true_rng by lia. rewrite IH. lia.
+  intros [_ HF]. unfold q_ledger. induction HF as [|[c L] t [HI _] Ht IH]; cbn [flat_map]; auto.
+  destruct HI as (-> & Hn & _). pose proof (begin_end c Hn). cbn [snd app].
+  unfold live_slots in *. cbn [fold_right snd b_map mkblk sum_num fst]. rewrite count_true_rng by lia. rewrite IH. lia.
 Qed.
+
+Definition sum_cap (cs : list (comp * ledger)) : N := fold_right (fun p a => c_cap (fst p) + a) 0 cs.
+
+Lemma req_caps s : QInv s -> item_slots (q_ledger s) = sum_cap (q_comps s).
+Proof.
+  intros [_ HF]. unfold q_ledger. induction HF as [|[c L] t [HI _] Ht IH]; cbn [flat_map]; auto.
+  destruct HI as (-> & Hn & _). cbn [snd app].
+  unfold item_slots in *. cbn [fold_right snd b_ty b_size mkblk sum_cap fst]. rewrite IH. lia.
+Qed.
+
+Lemma req_destroy_moved_from s : req_destroy (req_moved_from s) = false.
+Proof. reflexivity. Qed.
